@@ -110,6 +110,23 @@ PROPS = {
                 assumptions=["depth convention: root = level 1, a tree has at most eff levels and shows the subjects at edge distance <= eff-1 (internal/expand/engine.go, keto's test 'respects max depth')",
                              "which child is expanded first is keto's random shard_id order: a replay re-inserts the multiset and may need several insertions to show an order-dependent defect again (8/16 per case)",
                              "an expansion that does not return within 20 s is inconclusive unless the goroutine dump shows buildTreeRecursive nested deeper than the effective depth"]),
+    # C05: mode "faults" = statement faults (SQLite triggers on a poison row) + invalid positions + fault-free controls; mode "isolation" = concurrent
+    # histories (porcupine + direct oracle) on the WAL database and, labelled, the shared-cache memory DSN; mode "crash" = SIGKILL at the N-th
+    # pwrite64/fsync/fdatasync (strace) of a child performing one 6001/201 transact
+    "C05": dict(test="TestC05", level="fault_enumeration", runs=[("faults", "plain", 8), ("isolation", "plain", 8), ("crash", "plain", 4)], timeout=(1200, 7200), floor=(900, 800), ulimit_f_kb=2097152,
+                rule="faults: case = one write request (Manager.Write/Delete/TransactRelationTuples, REST PATCH/PUT/DELETE, gRPC Transact/Delete) with |I| in {1,2,2999,3000,3001,6001} (+7501 for the second uuid-mapping chunk), "
+                     "|D| in {0,1,99,100,101,201}, and ONE failure: RAISE(ABORT) or RAISE(FAIL) from a SQLite trigger on a poison row placed in every chunk of the tuple INSERT (3000), tuple DELETE (100) and uuid-mapping INSERT (15000), "
+                     "or a nil subject / unknown namespace / unknown subject-set namespace at position {0,1,mid,chunk edge-1,chunk edge,last} of a 6001/201 request; oracle: the request fails and the full database dump is unchanged "
+                     "(relationships strictly; uuid-mapping leftovers under their own signature); fault-free controls: success and relationships = apply(I,D,before). "
+                     "isolation: case = one history (<= 200 client calls: W in {1,2,4} writers, each round one multi-chunk transact (>3000 inserts, >100 deletes) + one multi-row delete by query on its own marker set; 4-8 readers woken from the hook points "
+                     "between the SQL chunks, single-statement list/exists/check through Manager, REST, gRPC), stamps from one atomic counter, checked by porcupine against the sequential multiset model (failed write = no effect, timed-out call open) "
+                     "plus the direct partial-application oracle on every list. crash: case = one (journal mode, path, syscall, N[, main-db-file only]) kill point; oracle: reopened database in {before, after}, integrity_check ok. "
+                     "evaluation = one judged request / one judged list read / one porcupine verdict / one reopened database; "
+                     "non-trivial = a failed request that had already executed >= 1 SQL statement of the same request, a successful read overlapping a successful transact of the same marker set, or a kill that actually happened after the transact started; distinct by case (and read)",
+                assumptions=["crash points are process kills (SIGKILL through strace) on SQLite: the page cache survives, nothing is claimed about power loss",
+                             "strace's when=N counts per thread; which kill points fired is recorded in the counters (fdatasync is never issued by this SQLite build)",
+                             "lock errors of the shared-cache memory DSN ('database table is locked', 'Unable to serialize access') are failed operations, reported under mem_* counters, never violations",
+                             "porcupine timeouts and harness deadlines give no verdict (inconclusive)"]),
     "C16": dict(test="TestC16", level="exploration", runs=[("", "plain", 16)], timeout=(900, 5400), floor=(25000, 600),
                 rule="case = one generated batch of 1..350 API tuples over a pool of adversarial names (modes distinct / repeat-heavy / obj-eq-subj / mixed / page-edge / adversarial-small), "
                      "run through the real Mapper + SQLite persister (FromTuple/ToTuple/FromQuery/ToQuery/FromSubjectSet/ToTree, MapStringsToUUIDs[ReadOnly], MapUUIDsToStrings) and, for the valid-UTF-8 tuples, "
@@ -303,7 +320,8 @@ def run_children(prop, cfg, tier, seed, workdir, replay=None):
             env["VERIF_REPLAY_SUB"] = str(replay.get("sub", ""))
         binary = RACE if kind == "race" else PLAIN
         # cap the output file (a stack overflow dump can be hundreds of MB)
-        cmd = "ulimit -f 204800; exec timeout -s QUIT -k 20 %d %s -test.run '^%s$' -test.timeout 0 -test.v" % (tmo, binary, cfg["test"])
+        # (the cap applies to every file the child writes; C05's WAL files grow past 200 MB while readers pin snapshots => per-property override)
+        cmd = "ulimit -f %d; exec timeout -s QUIT -k 20 %d %s -test.run '^%s$' -test.timeout 0 -test.v" % (cfg.get("ulimit_f_kb", 204800), tmo, binary, cfg["test"])
         lf = open(logpath, "wb")
         p = subprocess.Popen(["bash", "-c", cmd], cwd=scratch, env=env, stdout=lf, stderr=subprocess.STDOUT, start_new_session=True)
         return dict(job=job, proc=p, log=logpath, lf=lf, tag=tag, t0=time.time())
